@@ -122,6 +122,7 @@ def load_realign(repo):
     _MOD_INFO["foreign"] = scan_imports(realign_path)
     _MOD_INFO["sha"] = hashlib.sha256(open(realign_path, "rb").read()).hexdigest()[:16]
     fake, subs = simmp.make_module()
+    _MOD_INFO["fake_mp"] = fake
     saved = {k: v for k, v in sys.modules.items() if k == "multiprocessing" or k.startswith("multiprocessing.") or k == "time"}
     for k in saved:
         del sys.modules[k]
@@ -275,6 +276,7 @@ def run_sim(repo, paths, cfg, decisions=None, keep_trace=True):
         pipe_split=pipe.get("split", 16384),
     )
     world.faults = [simmp.fault_from_json(d) for d in cfg.get("faults", [])]
+    world.mp_module = _MOD_INFO.get("fake_mp")
     world.pickle_at_put = bool(cfg.get("pickle_at_put", False))
     world._alive_at_empty = 0
     b = cfg.get("batch")
